@@ -6,8 +6,11 @@
   * commutativity of `Val`'s `*` and commutativity / associativity of its `+` on ALL values (NaN, ±inf included;
     it does commute: no signed zeros, NaN absorbing, `0 · ∞ = NaN` either way round), used as ordered rewrite
     rules by the generic closing tactic of the generated theorems (tools/srcformulas.py `TACTIC`), so that a
-    reordering of commutative factors / terms in the Python still proves.  (Associativity of `*` is not proved
-    here; a re-bracketing of a product is therefore reported as a broken obligation.)
+    reordering of commutative factors / terms in the Python still proves;
+  * associativity of `*` (`mul_assoc'`, via the sign description `mul_eq_ofSign` / `sgn_mul` / `mul3`) and
+    `x / c = x * inv' c` for all values (`div_eq_mul_inv'`; `inv' 0 = +inf` because the model has no signed
+    zeros), hence `a * b / c = a * (b / c)`: the last alternative of the tactic rewrites quotients into products
+    with `inv'` and AC-normalises, so re-bracketing products and moving a factor in or out of a quotient proves.
 -/
 import CrCube.Model.Val
 import CrCube.Lemmas.ValAlgebra
@@ -15,8 +18,12 @@ import Mathlib.Tactic.Ring
 import Mathlib.Tactic.Linarith
 import Mathlib.Tactic.NormNum
 import Mathlib.Algebra.Order.Field.Rat
+import Mathlib.Tactic.FieldSimp
+import Mathlib.Tactic.Tauto
 
 set_option linter.unusedSimpArgs false
+set_option linter.unusedTactic false
+set_option linter.unreachableTactic false
 
 namespace CrCube
 namespace Src
@@ -60,6 +67,95 @@ theorem mul_comm' (a b : Val) : a * b = b * a := by
 theorem add_left_comm' (a b c : Val) : a + (b + c) = b + (a + c) := by
   rw [← add_assoc', add_comm' a b, add_assoc']
 
+/-- the value of a product with an infinite factor, by the product of the signs -/
+def ofSign (s : Int) : Val := if s > 0 then .pinf else if s < 0 then .ninf else .nan
+
+theorem nan_mul' (a : Val) : Val.nan * a = .nan := by cases a <;> rfl
+theorem mul_nan' (a : Val) : a * Val.nan = .nan := by cases a <;> rfl
+
+theorem ofSign_not_fin (s : Int) : (ofSign s).isFin = false := by
+  unfold ofSign; split_ifs <;> rfl
+
+theorem mul_eq_ofSign (a b : Val) (ha : a ≠ .nan) (hb : b ≠ .nan) (h : a.isFin = false ∨ b.isFin = false) :
+    a * b = ofSign (sgn a * sgn b) := by
+  cases a <;> cases b <;> simp_all [mul_def, Val.mul, ofSign, isFin]
+
+theorem sgn_mul (a b : Val) : sgn (a * b) = sgn a * sgn b := by
+  cases a <;> cases b
+  case fin.fin => exact sgn_mul_fin _ _
+  all_goals first
+    | (simp [mul_def, Val.mul, sgn]; done)
+    | (simp only [mul_def, Val.mul]
+       simp only [sgn]
+       split_ifs <;> simp_all <;> omega)
+
+theorem mul3 (a b c : Val) (ha : a ≠ .nan) (hb : b ≠ .nan) (hc : c ≠ .nan)
+    (h : a.isFin = false ∨ b.isFin = false ∨ c.isFin = false) :
+    a * b * c = ofSign (sgn a * sgn b * sgn c) := by
+  by_cases hab : a * b = .nan
+  · have h0 : sgn a * sgn b = 0 := by rw [← sgn_mul, hab]; rfl
+    rw [hab, nan_mul', h0]; simp [ofSign]
+  · have h2 : (a * b).isFin = false ∨ c.isFin = false := by
+      rcases h with h | h | h
+      · left; rw [mul_eq_ofSign a b ha hb (Or.inl h)]; exact ofSign_not_fin _
+      · left; rw [mul_eq_ofSign a b ha hb (Or.inr h)]; exact ofSign_not_fin _
+      · right; exact h
+    rw [mul_eq_ofSign (a * b) c hab hc h2, sgn_mul]
+
+theorem mul_assoc' (a b c : Val) : a * b * c = a * (b * c) := by
+  by_cases ha : a = .nan
+  · subst ha; simp [nan_mul']
+  by_cases hb : b = .nan
+  · subst hb; simp [nan_mul', mul_nan']
+  by_cases hc : c = .nan
+  · subst hc; simp [mul_nan']
+  by_cases h : a.isFin = false ∨ b.isFin = false ∨ c.isFin = false
+  · rw [mul3 a b c ha hb hc h, mul_comm' a (b * c), mul3 b c a hb hc ha (by tauto)]
+    congr 1; ring
+  · cases a <;> cases b <;> cases c <;> simp_all [isFin]
+    exact Rat.mul_assoc _ _ _
+
+theorem mul_left_comm' (a b c : Val) : a * (b * c) = b * (a * c) := by
+  rw [← mul_assoc', mul_comm' a b, mul_assoc']
+
+theorem div_def (a b : Val) : a / b = Val.div a b := rfl
+
+/-- the factor division multiplies by: `x / c = x * inv' c` for ALL values (no signed zeros: `1/0 = +inf`) -/
+def inv' : Val → Val
+  | .fin b => if b = 0 then .pinf else .fin (1 / b)
+  | .nan => .nan
+  | _ => .fin 0
+
+theorem div_eq_mul_inv' (x c : Val) : x / c = x * inv' c := by
+  cases x <;> cases c
+  case fin.fin a b =>
+    by_cases hb : b = 0
+    · subst hb
+      rcases lt_trichotomy a 0 with h | h | h
+      · simp [div_def, Val.div, inv', mul_def, Val.mul, sgn, h, not_lt.mpr (le_of_lt h)]
+      · subst h; simp [div_def, Val.div, inv', mul_def, Val.mul, sgn]
+      · simp [div_def, Val.div, inv', mul_def, Val.mul, sgn, h, not_lt.mpr (le_of_lt h)]
+    · simp [div_def, Val.div, inv', mul_def, Val.mul, hb, div_eq_mul_inv]
+  case pinf.fin b =>
+    rcases lt_trichotomy b 0 with h | h | h
+    · have : (1 / b) < 0 := one_div_neg.mpr h
+      simp [div_def, Val.div, inv', mul_def, Val.mul, sgn, h, ne_of_lt h, this, not_lt.mpr (le_of_lt this), not_lt.mpr (le_of_lt h)]
+    · subst h; simp [div_def, Val.div, inv', mul_def, Val.mul, sgn]
+    · have : 0 < (1 / b) := one_div_pos.mpr h
+      simp [div_def, Val.div, inv', mul_def, Val.mul, sgn, h, ne_of_gt h, this, not_lt.mpr (le_of_lt this), not_lt.mpr (le_of_lt h)]
+  case ninf.fin b =>
+    rcases lt_trichotomy b 0 with h | h | h
+    · have : (1 / b) < 0 := one_div_neg.mpr h
+      simp [div_def, Val.div, inv', mul_def, Val.mul, sgn, h, ne_of_lt h, this, not_lt.mpr (le_of_lt this), not_lt.mpr (le_of_lt h)]
+    · subst h; simp [div_def, Val.div, inv', mul_def, Val.mul, sgn]
+    · have : 0 < (1 / b) := one_div_pos.mpr h
+      simp [div_def, Val.div, inv', mul_def, Val.mul, sgn, h, ne_of_gt h, this, not_lt.mpr (le_of_lt this), not_lt.mpr (le_of_lt h)]
+  all_goals simp [div_def, Val.div, inv', mul_def, Val.mul, sgn]
+
+/-- `a * b / c = a * (b / c)` on ALL of `Val` (this model has no signed zeros) -/
+theorem mul_div_assoc' (a b c : Val) : a * b / c = a * (b / c) := by
+  rw [div_eq_mul_inv', div_eq_mul_inv', mul_assoc']
+
 end Val
 end CrCube
 
@@ -69,6 +165,7 @@ namespace Src
 instance : Std.Commutative (α := Val) (· * ·) := ⟨Val.mul_comm'⟩
 instance : Std.Commutative (α := Val) (· + ·) := ⟨Val.add_comm'⟩
 instance : Std.Associative (α := Val) (· + ·) := ⟨Val.add_assoc'⟩
+instance : Std.Associative (α := Val) (· * ·) := ⟨Val.mul_assoc'⟩
 
 /-- numerals of `Val` written `(1 : Val)` in the model are the same values as the translator's `Val.fin 1` -/
 theorem ofNat_eq_fin (n : Nat) : (OfNat.ofNat n : Val) = Val.fin (n : Rat) := rfl
